@@ -12,6 +12,30 @@ def test_otround_and_bits():
     assert IR.bitlist([0, 5], 0, 16) == 33 and IR.bitlist([7, 7]) == 128
 
 
+def test_bit_lists_are_sets():
+    """A repeated (or out-of-order) bit number means 'bit set', once."""
+    rep = {"openTypeOS2Selection": [7, 1, 7, 1], "openTypeOS2Type": [3, 8, 3, 8],
+           "openTypeHeadFlags": [3, 0, 3, 12, 12], "openTypeOS2UnicodeRanges": [69, 1, 38, 1, 38, 31, 31],
+           "openTypeOS2CodePageRanges": [63, 0, 63, 33, 0],
+           "openTypeGaspRangeRecords": [{"rangeMaxPPEM": 8, "rangeGaspBehavior": [1, 1]},
+                                        {"rangeMaxPPEM": 65535, "rangeGaspBehavior": [3, 0, 3]}]}
+    e = IR.InfoRef(rep, 0).expected_fields("ttf")
+    assert e[("OS/2", "fsSelection")] == ("eq", 0x80 | 0x02 | 0x40)      # + REGULAR from the style map
+    assert e[("OS/2", "fsType")] == ("eq", 0x108) and e[("head", "flags")][1] == 0x1009
+    assert [e[("OS/2", "ulUnicodeRange%d" % i)][1] for i in (1, 2, 3, 4)] == [0x80000002, 0x40, 0x20, 0]
+    assert [e[("OS/2", "ulCodePageRange%d" % i)][1] for i in (1, 2)] == [1, 0x80000002]
+    assert e[("gasp", "gaspRange")] == ("eq", {8: 2, 65535: 9})
+    dedup = {k: (sorted(set(v)) if isinstance(v[0], int) else
+                 [dict(r, rangeGaspBehavior=sorted(set(r["rangeGaspBehavior"]))) for r in v])
+             for k, v in rep.items()}
+    assert IR.InfoRef(dedup, 0).expected_fields("ttf") == e
+    # every bit-list attribute of the C16 menu has a value with a repeated bit number
+    from props import c16_fontinfo as P
+    for attr in P.BIT_LIST_ATTRS:
+        assert any(len(set(v)) != len(v) for v in P.MENU[attr]), attr
+    assert any(P.has_repeated_bit({"openTypeGaspRangeRecords": v}) for v in P.MENU["openTypeGaspRangeRecords"])
+
+
 def test_psname_rules():
     assert IR.psname_ok("Verif-Regular", "Verif-Regular")
     assert not IR.psname_ok("Verif-Regular", "Verif-Regula")
